@@ -5,7 +5,10 @@ time derivatives to the velocity gradient, acceleration, projection, expansion, 
 vorticity is interpreted symbolically; index discipline, declared index positions and the
 written form of each step (in particular: the time derivative handed to the spacetime
 covariant derivative is that of the *lower-index* velocity, u_0 = beta^i u_i - alpha W) are
-compared with the definitions.  The identities theta = -K etc. are not decided."""
+compared with the definitions.  The 4-metric the chain lowers and projects with (gdown4 and
+its inverse, assembled from lapse, shift and 3-metric: g_tt = -alpha^2 + beta_i beta^i for any
+shift, not only a sub-luminal one) is part of the chain and compared as well.  The identities
+theta = -K etc. are not decided."""
 from ..tcheck import check_helper, check_keys
 from .c05 import STCOVD, generic
 
@@ -13,7 +16,7 @@ LEVEL = "other"
 KEYS = """st_covd_udown4 accelerationdown4 accelerationup4 s_covd_udown4 thetadown4 theta
  sheardown4 shear2 omegadown4 omega2 s_RicciS_u hmixed4 hup4 hdown4 udown4 udown3 uup4 uup3
  uup0 dtgammaup3 conserved_D conserved_E conserved_Sdown3 conserved_Sdown4 st_Gamma_udd4
- nup4""".split()
+ nup4 ndown4 gtt gtx gty gtz betadown3 betamag gdown4 gup4 gammaup3""".split()
 
 
 def run(rep):
